@@ -83,9 +83,9 @@ def spec_translate(text):
     if t.type == tokenize.OP and t.string == "$":
       nxt = toks[i + 1] if i + 1 < len(toks) else None
       prv = toks[i - 1] if i > 0 else None
-      if prv is not None and prv.end == t.start and (
-          prv.type in (tokenize.NAME, tokenize.NUMBER) or prv.string == "."):
-        raise NotValid("unclear", "`$` glued to a preceding name, number or dot")
+      if prv is not None and ((prv.end == t.start and prv.type in (tokenize.NAME, tokenize.NUMBER))
+                              or prv.string == "."):
+        raise NotValid("unclear", "`$` glued to a preceding name / number, or after a dot")
       if nxt is not None and nxt.type == tokenize.NAME and nxt.start == t.end:
         if not nxt.string.isascii():
           raise NotValid("unclear", "`$` before a non-ASCII name (column ids are ASCII)")
@@ -202,12 +202,18 @@ def cell_outcome(cell):
   return ("v", cell)
 
 
+def _has_repr(v):
+  """Does the canonical value contain (at any depth) an object repr ('U') or an unencodable?"""
+  if isinstance(v, tuple):
+    if len(v) >= 2 and v[0] == "l" and v[1] == "U": return True
+    if v and v[0] == "unencodable": return True
+    return any(_has_repr(x) for x in v)
+  return False
+
+
 def comparable(o):
   """Values whose encoding carries an object address / is lossy are not compared."""
-  if o[0] == "E": return True
-  v = o[1]
-  return not (isinstance(v, tuple) and len(v) >= 2 and v[0] == "l" and v[1] == "U") \
-      and not (isinstance(v, tuple) and v and v[0] == "unencodable")
+  return o[0] == "E" or not _has_repr(o[1])
 
 
 # ------------------------------------------------------------------------------------------------
